@@ -91,6 +91,14 @@ CaseStart ==
                               THEN {Tag("C03", "STREAMINFO rate/channels/width differ from the source")} ELSE {}) \cup
                            (IF Pc("C03") /\ ~(h.totHi = 0 /\ h.totLo = cs.n)
                               THEN {Tag("C03", "STREAMINFO total samples differ from the samples consumed")} ELSE {}) \cup
+                           (IF Pc("C15") THEN
+                              (IF cs.p15.parse # "ok" THEN {Tag("C15", "the parser does not accept the emitted stream: " \o cs.p15.parse)} ELSE
+                                 (IF cs.p15.remaining # 0 THEN {Tag("C15", "the parser leaves " \o ToString(cs.p15.remaining) \o " bytes unconsumed")} ELSE {}) \cup
+                                 (IF cs.p15.verify # "ok" THEN {Tag("C15", "the parsed tree does not verify: " \o cs.p15.verify)} ELSE {}) \cup
+                                 (IF ~cs.p15.reser THEN {Tag("C15", "the parsed tree does not re-serialise to the same bytes")} ELSE {}) \cup
+                                 (IF ~cs.p15.frames_ok THEN {Tag("C15", "a single frame does not survive write / parse / write")} ELSE {}) \cup
+                                 (IF cs.p15.nframes # NBlk(cs) THEN {Tag("C15", "the parser reports " \o ToString(cs.p15.nframes) \o " frames")} ELSE {}))
+                            ELSE {}) \cup
                            (IF Pc("C05") /\ ~cs.modes_equal
                               THEN {Tag("C05", "single-thread, multi-thread and frame-level assembly of the same input give different bytes")} ELSE {}) \cup
                            (IF Pc("C14") /\ ~cs.twin_equal
@@ -133,6 +141,23 @@ FrameConjuncts(f, x, cs, h, kk, isLast, cb) ==
                   cb.res[j] # ResidualSize(f.subs[j].res, f.n, f.subs[j].order))
                 THEN {TagF("C08", kk, "residual " \o ToString(j) \o " count_bits differs from bits written")} ELSE {})
              : j \in 1..f.nch }
+   ELSE {}) \cup
+  (IF P("C15") /\ Case.p15.parse = "ok" THEN
+     LET t == Ev.t15 IN
+     (IF t.dec # x THEN {TagF("C15", kk, "Decode of the parsed frame differs from the input block")} ELSE {}) \cup
+     (IF t.n # f.n \/ t.chcode # f.chCode \/ Len(t.subs) # f.nch
+        THEN {TagF("C15", kk, "the parser reports block size / channel assignment " \o ToString(<<t.n, t.chcode>>)
+                              \o ", the independent parser reads " \o ToString(<<f.n, f.chCode>>))}
+      ELSE UNION { LET a == t.subs[j]  s == f.subs[j] IN
+                   IF a.kind # s.kind \/ a.order # s.order
+                     THEN {TagF("C15", kk, "subframe " \o ToString(j) \o ": parser reports " \o a.kind \o "/" \o ToString(a.order)
+                                           \o ", the independent parser reads " \o s.kind \o "/" \o ToString(s.order))}
+                   ELSE (IF s.kind = "constant" /\ a.dc # s.samples[1] THEN {TagF("C15", kk, "constant value differs")} ELSE {}) \cup
+                        (IF s.kind \in {"fixed", "lpc"} /\ (a.warm # s.warm \/ a.r.porder # s.res.porder \/ a.r.params # s.res.params \/ a.r.res # s.res.out)
+                           THEN {TagF("C15", kk, "subframe " \o ToString(j) \o ": warm-up / partition order / Rice parameters / residual reported by the parser differ from the bytes")} ELSE {}) \cup
+                        (IF s.kind = "lpc" /\ (a.coefs # s.coefs \/ a.shift # s.shift \/ a.prec # s.prec)
+                           THEN {TagF("C15", kk, "subframe " \o ToString(j) \o ": predictor reported by the parser differs from the bytes")} ELSE {})
+                   : j \in 1..f.nch })
    ELSE {}) \cup
   (IF P("C13") THEN
      UNION { IF f.subs[j].kind \in {"fixed", "lpc"} THEN
